@@ -128,6 +128,9 @@ def tlc_mc(module, cfg, wd, workers=8, timeout=1200, extra=None, env=None):
     m = re.search(r"Invariant (\S+) is violated", text)
     if m:
         res["violated"] = m.group(1)
+    m = re.search(r"Temporal properties (.*) were violated|Temporal property (\S+) was violated", text)
+    if m:
+        res["violated"] = "temporal:" + (m.group(1) or m.group(2))
     if "Model checking completed. No error has been found." in text:
         res["ok"] = True
     elif res["violated"] is None:
